@@ -29,7 +29,7 @@ for pid, c in sorted(CLAIMED.items()):
 na = [{'property_id': p['id'], 'reason': 'check not built yet in this round (planned: see DESIGN.md section 7); not a statement that the technique cannot apply'}
       for p in props if p['id'] not in CLAIMED]
 man = {'version': 1,
-       'setup_cmd': 'cd coq && coq_makefile -f _CoqProject -o Makefile >/dev/null 2>&1 && timeout 1800 make -j16 >/dev/null 2>&1; test -f lib/QMat.vo',
+       'setup_cmd': 'cd coq && coq_makefile -f _CoqProject -o Makefile >/dev/null 2>&1 && timeout 3000 make -j16 >/dev/null 2>&1 && echo coq-library-built',
        'hooks': {'guard': 'QUATICA_VERIF', 'enable': 'no source hooks: observation is through public return values and harness-side wrappers',
                  'baseline_off_cmd': 'cd /repo && /venv/bin/python -m pytest -ra -q -p no:cacheprovider --timeout=900 --continue-on-collection-errors',
                  'source_commits': [], 'add_only': True},
